@@ -16,9 +16,9 @@ _base = dict(driver="drv_nns", harness="nns", shards=dict(quick=1, thorough=16),
                       "verdicts of the string scanners (safeSplitAndCheck, checkIPv4, checkIPv6) are inputs of the model (Env.nameOK, Env.ipOK); the theorems hold for every oracle; the scanners are C18",
                       "a receiving contract's onNEP11Payment does not call back into the NNS contract; GAS limits are not modelled"])
 PROPS = {
-    "C10": dict(_base, lean=["NeoFS.Props.C10"], monitors=["C10"]),
+    "C10": dict(_base, lean=["NeoFS.Props.C10"], monitors=["C10"], facts=["consts", "footprint"]),
     "C11": dict(_base, lean=["NeoFS.Props.C11"], monitors=["C11"], facts=["consts", "access"]),
-    "C12": dict(_base, lean=["NeoFS.Props.C12"], monitors=["C12"]),
+    "C12": dict(_base, lean=["NeoFS.Props.C12"], monitors=["C12"], facts=["consts", "footprint"]),
 }
 NOTE = ("Theorems are about NeoFS/Model/NNS.lean, a branch-by-branch model of contracts/nns/contract.go and namestate.go (typed family maps keyed by "
         "names instead of RIPEMD-160 digests; scanner verdicts are oracle inputs). Trusted: Lean kernel; axioms propext/Classical.choice/Quot.sound only; "
